@@ -4,6 +4,7 @@
   re-checks them exactly when the generated file or the table changes.
 -/
 import TdVerif.Model.C07Table
+import TdVerif.Model.C07Shapes
 import TdVerif.Gen.C07Api
 
 namespace TdVerif.C07
